@@ -18,7 +18,7 @@ def P(rule, monitors, inproc=None, cells=None, extra_assume=None, evaluations=10
     ladder = ["size-ladder"] if "size ladder" in rule else []
     return {"rule": rule, "assumptions": COMMON_ASSUME + (extra_assume or []),
             "floors": {"evaluations": evaluations, "monitors": monitors, "cells": (cells or []) + ladder},
-            "inproc": inproc or {"quick": [("relchk", 16, 8.0)], "thorough": [("relchk", 16, 3.0), ("release", 16, 1.0)]},
+            "inproc": inproc or {"quick": [("relchk", 16, 8.0), ("release", 16, 2.0)], "thorough": [("relchk", 16, 3.0), ("release", 16, 1.0)]},
             "proc": proc or {"quick": [], "thorough": []}}
 
 
@@ -75,7 +75,7 @@ PLANS = {
                            "domain: documents the text interfaces can deliver (serde_json recursion limit 128)"]),
     "C17": P("a pool of (rule, data) pairs (same rule on different data, different rules on the same data, erroring and logging calls; 120 x 8 quick, 400 x 12 thorough) is first evaluated once per pair (isolated result, log trace and allocation count), then driven through randomised histories biased towards 'same rule, other data' / 'other rule, same data' / exact repeats; each result and log trace must equal the isolated one, inputs must be unchanged, net live heap after the call must be 0 and the allocation count must equal the isolated count (hidden caches / memos). Concurrency: 2 / 4 / 16 threads on a barrier share the pool (half of the calls on 8 hot pairs), random yields and spins; each result must equal the isolated one and the multiset of printed lines must be the union of the isolated traces; lanes: native, ThreadSanitizer (build-std), Miri with different seeds. Process level: one call per fresh process vs the same calls in one process; strace deny-list on the real CLI (only writes to fd 1 / 2). Non-trivial = history steps of the two biased kinds and distinct completion orders; distinct by (pair, predecessor) / schedule signature.",
              ["c17.history", "c17.immutability", "c17.heap-conservation", "c17.alloc-determinism", "c17.concurrent", "c17.concurrent-effects", "c17.effects", "c17.log-identity", "c17.syscalls", "c17.fresh-process", "c17.stderr-silent", "c17.environment-independence"],
-             inproc={"quick": [("relchk", 16, 2.0), ("tsan", 8, 0.25), ("miri", 4, None)],
+             inproc={"quick": [("relchk", 16, 2.0), ("release", 8, 0.5), ("tsan", 8, 0.25), ("miri", 4, None)],
                      "thorough": [("relchk", 16, 2.0), ("tsan", 16, 0.5), ("miri", 16, None)]},
              proc={"quick": [PL.strace_lane, PL.fresh_process_lane, PL.env_lane], "thorough": [PL.strace_lane, PL.fresh_process_lane, PL.env_lane]},
              cells=["history:same-rule-other-data", "history:other-rule-same-data", "history:exact-repeat", "concurrent:threads=16", "concurrent:threads=2"],
